@@ -4,7 +4,8 @@ Decided: R01.1 every override and every dynamic call site of the swap-rule proto
 double-dispatch protocols of Array) agrees in arity with the declaration in Array/Evaluable - a mismatch is a
 TypeError the moment that pair of node kinds meets; R01.2 inside a swap rule the rule's own axis parameters are
 never handed to the user-facing helper of the same name (different axis convention / extra assertions);
-R01.4 the fixed-point driver keeps its shape/dtype assertion, loop detection and memoisation.
+R01.4 the fixed-point driver keeps its shape/dtype assertion, loop detection and memoisation; R01.6 the iszero/isunit
+guards of rewrite rules are decidable by simplification (a guard over `a % b` is dead: Mod has no constant folding).
 R01.3 is advisory (INFO).  Not decided: termination and value preservation of the rule set.
 '''
 
@@ -241,6 +242,41 @@ def advisory_priority(model, rep):
     rep.unit('rules_against_priority', n)
 
 
+NO_FOLDING = ('Mod', 'FloorDivide')   # evaluable node classes without any constant folding (no _simplified at all)
+
+
+def check_decidable_guards(model, rep):
+    """R01.6: rewrite rules guard themselves with iszero(E) / isunit(E), which hold only if E *simplifies* to Zeros / a unit Constant.
+    An operand built on the spot from an operation that has no constant folding (`a % b` makes a Mod node; neither Mod nor FloorDivide nor
+    their base Pointwise ever folds constants) can never simplify to Zeros for array or real constants, so such a guard is dead and the branch it
+    protects is never taken: the rewrite silently runs without the precaution the guard was written for."""
+    ev = model.module('evaluable')
+    for cname in NO_FOLDING:
+        c = ev.classes.get(cname)
+        if c is None:
+            raise AnalysisError(f'evaluable.{cname} not found')
+        mem = c.members.get('_simplified')
+        if mem is not None and mem.func is not None and any(isinstance(x, ast.Call) and method_name(x) in ('zeros', 'Zeros', 'zeros_like', 'constant', 'Constant') for x in ast.walk(mem.func.node)):
+            raise AnalysisError(f'evaluable.{cname}._simplified now builds constants: the premise of R01.6 (no constant folding) needs review')
+    n = 0
+    for f in model.functions.values():
+        if f.module is not ev or isinstance(f.node, ast.Lambda):
+            continue
+        for c in calls_in(f.node, nested=False):
+            if not (isinstance(c.func, ast.Name) and c.func.id in ('iszero', 'isunit') and len(c.args) == 1):
+                continue
+            n += 1
+            arg = c.args[0]
+            dead = [x for x in ast.walk(arg) if (isinstance(x, ast.BinOp) and isinstance(x.op, (ast.Mod, ast.FloorDiv))) or
+                    (isinstance(x, ast.Call) and src(x.func) in NO_FOLDING + ('mod', 'floor_divide', 'divmod'))]
+            ok = not dead
+            rep.ob('R01.6', f.key, f.where(c), ok, f'`{src(c)[:60]}` tests an operand that simplification can decide' if ok else
+                   f'`{src(c)[:70]}` can never be true for array or real constants: `{src(dead[0])[:40]}` builds a node of a class without constant folding, which never simplifies to '
+                   f'{"Zeros" if c.func.id == "iszero" else "a unit constant"} - the guard is dead and the rewrite it protects runs unguarded', statement=f'decidable {src(c)[:50]}')
+    if n < 10:
+        raise AnalysisError(f'only {n} iszero/isunit guards found in evaluable.py')
+
+
 def run(model, rep, tier):
     rep.explanation = (
         'R01.1: the rewrite system is a double-dispatch protocol; the arities declared by the `_x = lambda self, ...: None` defaults in evaluable.Array (and by _simplified, _derivative, _compile_with_out, ...) are '
@@ -252,11 +288,13 @@ def run(model, rep, tier):
     rep.rule('R01.2', 'swap rules do not hand their own axis parameters to user-facing helpers')
     rep.rule('R01.4', 'fixed-point driver: assertion, None convention, loop detection, memoisation')
     rep.rule('R01.5', 'binary swap rules: control operands equated, no loop-index capture')
+    rep.rule('R01.6', 'iszero/isunit guards of rewrite rules test operands that simplification can decide (no dead guards)')
     check_arity(model, rep)
     check_passthrough(model, rep)
     check_driver(model, rep)
     check_binary_guards(model, rep)
     advisory_priority(model, rep)
+    check_decidable_guards(model, rep)
     rep.require('R01.1', 250)
     rep.require('R01.2', 40)
     rep.require('R01.4', 6)
